@@ -547,7 +547,8 @@ class Interp:
             env.clear(); env.update(e2)
 
     def loop_contract(self, st):
-        return None
+        """sidecar loop contract for this `while` node (installed by a driver, see pyvc/cascade.py)"""
+        return getattr(self, 'loop_cuts', {}).get(id(st))
 
     def st_Try(self, st, ctx, env):
         if st.finalbody:
@@ -712,7 +713,7 @@ class Interp:
         if isinstance(n.op, ast.Not):
             return Not_(self.truth(v, ctx))
         if isinstance(n.op, ast.USub):
-            return self.lift1(v, lambda x: -b2i(x) if is_num(x) or is_boolish(x) else self.type_error(ctx, n), ctx)
+            return self.lift1(v, lambda x, cx: -b2i(x) if is_num(x) or is_boolish(x) else self.type_error(cx, n), ctx)
         if isinstance(n.op, ast.UAdd):
             return v
         raise PyvcUnsupported(f'unary {type(n.op).__name__}')
@@ -724,14 +725,10 @@ class Interp:
     def lift1(self, v, fn, ctx):
         if isinstance(v, Choice):
             outs = []
-            for g, a in v.alts:
-                sub = ctx.fork(g)
-                r = fn(a)
-                if sub.dead:
-                    continue
-                outs.append((g, r))
-            return mk_choice(outs)
-        return fn(v)
+            # `fn` may raise on an alternative (type error): that must narrow the caller's context by the
+            # alternative's guard only, never kill it -- split() forks per alternative and joins
+            return self.split(ctx, v, lambda sub, a: fn(a, sub))
+        return fn(v, ctx)
 
     def ex_BoolOp(self, n, ctx, env):
         is_and = isinstance(n.op, ast.And)
@@ -863,7 +860,12 @@ class Interp:
                 e2['__comp__'] = models.seq_append(self, cx, e2['__comp__'], val)
                 return
             g = n.generators[k]
-            seq = models.to_seq(self, cx, self.eval(g.iter, cx, e2))
+            it = self.eval(g.iter, cx, e2)
+            if it is None:
+                # iterating None: TypeError on this path (e.g. a guard the path condition already excludes)
+                self.raise_if(cx, True, TypeErr, 'type:iterate-None@' + self.where(g.iter))
+                return
+            seq = models.to_seq(self, cx, it)
 
             def body(c3, e3):
                 def chain(conds, c4, e4):
@@ -1250,14 +1252,23 @@ class Interp:
 
     def floor_divmod(self, ctx, x, y):
         """Python floor division/modulo on integers, as terms (no fresh symbols, so the result may be used
-        under negation): for y > 0 Python's // is z3's Euclidean div; for y < 0, x // y == (-x) div (-y)."""
+        under negation): for y > 0 Python's // is z3's Euclidean div; for y < 0, x // y == (-x) div (-y).
+        A symbolic divisor is first compared with the small constants 1..SMALL_DIVISOR (numbers of winners,
+        boards, hand types): in those cases quotient and remainder are LINEAR terms, which keeps the
+        obligations in linear integer arithmetic; the general nonlinear term is the last alternative."""
         cy = concrete_int(y)
         if cy is not None:
             q = x / z3.IntVal(cy) if cy > 0 else (-x) / z3.IntVal(-cy)
-        else:
-            q = z3.If(y > 0, x / y, (-x) / (-y))
+            return q, x - q * y
+        q = z3.If(y > 0, x / y, (-x) / (-y))
         r = x - q * y
+        for k in range(self.SMALL_DIVISOR, 0, -1):
+            qk = x / z3.IntVal(k)
+            q = z3.If(y == k, qk, q)
+            r = z3.If(y == k, x - qk * k, r)
         return q, r
+
+    SMALL_DIVISOR = 8
 
     # ------------------------------------------------------------------------------------------------
     # attributes
